@@ -409,11 +409,15 @@ def removeAll (f : Table → Str → Option (Table × Bool)) : List Str → Tabl
     | none => none
     | some (t', _) => removeAll f cs t'
 
-/-- `remove_handle_recursive`; `none` = out of fuel (the Rust recursion has no fuel: it
-    terminates because every call that recurses has removed a handle first;
-    `C12_release_recursive_terminates` shows fuel `table size + 1` is never exhausted) -/
+/-- `remove_handle_recursive`; `none` = out of fuel.  The Rust recursion has no fuel: it
+    terminates because every call that recurses has removed a handle first.  Fuel is consumed
+    only by a call that finds (and removes) a handle, so fuel = number of table entries is never
+    exhausted (`C12_release_recursive_terminates`). -/
 def removeRec : Nat → Table → Str → Option (Table × Bool)
-  | 0, _, _ => none
+  | 0, t, key =>
+    match tget t key with
+    | none => some (tremove t key, false)
+    | some _ => none
   | fuel + 1, t, key =>
     match tget t key with
     | none => some (tremove t key, false)
@@ -428,7 +432,7 @@ def cmdRelease (s : St) : List Str → St × Res
   | [a] => ({ s with tbl := tremove s.tbl a }, .val (some (boolStr (tget s.tbl a).isSome)))
   | a :: b :: _ =>
     if isRecFlag a then
-      match removeRec (s.tbl.length + 1) s.tbl b with
+      match removeRec s.tbl.length s.tbl b with
       | some (t, r) => ({ s with tbl := t }, .val (some (boolStr r)))
       | none => (s, .err)
     else ({ s with tbl := tremove s.tbl a }, .val (some (boolStr (tget s.tbl a).isSome)))
